@@ -558,6 +558,12 @@ class Ops:
                 for (s2, xa, ya) in self.sign_split(st, x, y):
                     outs += self.assume_lin(s2, 'u' + pred[1:], xa, ya, x, y)
                 return outs
+            if pred[0] == 'u':
+                # a wrapped sum compared with a constant (the `x + bias < limit` range idiom): decide wrap / no wrap first
+                outs = []
+                for s2 in self.wrap_split(st, x, y):
+                    outs += self.assume_lin(s2, pred, x.a, y.a, x, y)
+                return outs
             return self.assume_lin(st, pred, x.a, y.a, x, y)
         # pointers
         r = self.ptr_eq(st, x, y)
@@ -568,6 +574,39 @@ class Ops:
             d = x.off.sub(y.off)
             ok = st.store.assume_eq0(d) if pred == 'eq' else st.store.assume_ne0(d)
             return [st] if ok else []
+        return [st]
+
+    def wrap_split(self, st, x, y):
+        """if one operand is c = a +w k (k constant) and the other a constant, split st into the no-wrap case (c = a + k)
+        and the wrap case (c = a + k - 2^w); otherwise st unchanged"""
+        for (v, o) in ((x, y), (y, x)):
+            if not o.a.is_const():
+                continue
+            sg = v.a.single()
+            if not sg or sg[1] != 1 or v.a.c != 0:
+                continue
+            info = st.syminfo.get(sg[0])
+            if info is None or info.defn is None or info.defn[0] != 'addw':
+                continue
+            _, a, b, w = info.defn
+            if not (a.is_const() or b.is_const()):
+                continue
+            S = st.store
+            tot = a.add(b)
+            if not all(z in S.ivl for z in tot.t):
+                continue
+            lo, hi = S.bounds(tot)
+            if hi < (1 << w) or lo >= (1 << w):
+                continue          # already decided
+            c = Aff.sym(sg[0])
+            s1 = st
+            s2 = st.copy()
+            out = []
+            if s1.store.assume_ge0(tot.neg().add((1 << w) - 1)) and s1.store.assume_eq0(c.sub(tot)):
+                out.append(s1)
+            if s2.store.assume_ge0(tot.sub(1 << w)) and s2.store.assume_eq0(c.sub(tot).add(1 << w)):
+                out.append(s2)
+            return out
         return [st]
 
     def sign_split(self, st, x, y):
